@@ -294,6 +294,7 @@ func init() {
 		p.sched.preempt = int(p.concInt(args[1], "preemptions"))
 		return nil
 	})
+	H("Pause", func(fr *frame, args []value) value { return nil })
 	H("SymbolicLocks", func(fr *frame, args []value) value {
 		fr.i.path.sched.lockPoints = true
 		return nil
